@@ -44,6 +44,39 @@ MUT = {
         "attr-kwargs-reordered-reducesum": [(V17, "            keepdims=AttrInt64(keepdims, name=\"keepdims\"),\n            noop_with_empty_axes=AttrInt64(\n                noop_with_empty_axes, name=\"noop_with_empty_axes\"\n            ),\n        ),\n        _ReduceSum.Inputs(", "            noop_with_empty_axes=AttrInt64(\n                noop_with_empty_axes, name=\"noop_with_empty_axes\"\n            ),\n            keepdims=AttrInt64(keepdims, name=\"keepdims\"),\n        ),\n        _ReduceSum.Inputs(")],
         "float-default-respelled": [(V17, "    alpha: float = 0.009999999776482582,", "    alpha: float = 0.01,")],
     },
+    # refactorings of internals the harness observes through, combined with a real breakage:
+    # must end in exit 1 with a VIOLATION (never exit 2)
+    "C11-refactor": {
+        "to_onnx-kwarg-renamed+no-trailing-trim": [
+            ("SED", r"s/build_subgraph/subgraph_builder/g", "src/spox/_*.py"),
+            ("src/spox/_node.py", "        while len(input_names) > self.min_input and not input_names[-1]:\n            input_names.pop()\n", "")],
+        "scope-class-renamed+reducesum-default": [
+            ("SED", r"s/\bScope\b/NameScope/g", "src/spox/_*.py"),
+            (V17, "def reduce_sum(\n    data: Var,\n    axes: Optional[Var] = None,\n    *,\n    keepdims: int = 1,", "def reduce_sum(\n    data: Var,\n    axes: Optional[Var] = None,\n    *,\n    keepdims: int = 0,")],
+        "var-op-renamed+clip-shifted": [
+            ("SED", r"s/\b_op\b/_producer/g", "src/spox/_*.py"),
+            (V17, "        _Clip.Inputs(\n            input=input,\n            min=min,\n            max=max,", "        _Clip.Inputs(\n            input=input,\n            min=max,\n            max=min,")],
+        "inference-renamed+split-tables": [
+            ("SED", r"s/\binference\(/_run_inference(/g", "src/spox/_node.py"),
+            (V17, "    op_type = OpType(\"Abs\", \"\", 13)", "    op_type = OpType(\"Abs\", \"\", 6)")],
+    },
+    "C18-refactor": {
+        "to_onnx-kwarg-renamed+plain-node-trims": [
+            ("SED", r"s/build_subgraph/subgraph_builder/g", "src/spox/_*.py"),
+            ("src/spox/_node.py", "        return len(self.inputs)\n", "        return 0\n")],
+        "policy-moved+min": [
+            ("SED", r"s/max_opset_policy/opset_policy/g", "src/spox/_*.py"),
+            ("src/spox/_schemas.py", "return {domain: max(v for _, v in group) for domain, group in grouping}", "return {domain: min(v for _, v in group) for domain, group in grouping}")],
+        "inference-renamed+value-without-check": [
+            ("SED", r"s/\binference\(/_run_inference(/g", "src/spox/_node.py"),
+            ("src/spox/_node.py", "                if prop.check():", "                if True:")],
+        "check-renamed+value-to-untyped": [
+            ("SED", r"s/\bcheck\(\)/conforms()/g; s/def check\(self\)/def conforms(self)/", "src/spox/_*.py"),
+            ("src/spox/_node.py", "            if var.type is not None and var._value is None and key in out_values:", "            if var._value is None and key in out_values:")],
+        "type-warning-level-renamed+no-warning": [
+            ("SED", r"s/type_warning_level/warning_level/g", "src/spox/_future.py"),
+            ("src/spox/_node.py", "        if _TYPE_WARNING_LEVEL <= TypeWarningLevel.NONE:\n            return", "        if _TYPE_WARNING_LEVEL <= TypeWarningLevel.INITIAL:\n            return")],
+    },
     "C18": {
         "plain-node-trims-trailing": [("src/spox/_node.py", "        return len(self.inputs)\n", "        return 0\n")],
         "import-min-instead-of-max": [("src/spox/_schemas.py", "return {domain: max(v for _, v in group) for domain, group in grouping}", "return {domain: min(v for _, v in group) for domain, group in grouping}")],
@@ -69,6 +102,11 @@ def sh(cmd, **kw):
 def run_one(pid, name, edits, tier="quick"):
     sh(f"git -C {REPO} checkout -- .")
     for rel, old, new in edits:
+        if rel == "SED":
+            r0 = sh(f"sed -i -E '{old}' {new}", cwd=REPO)
+            if r0.returncode != 0:
+                return f"{name}: sed failed {r0.stderr[:200]}"
+            continue
         p = REPO / rel
         t = p.read_text()
         if t.count(old) < 1:
@@ -85,10 +123,10 @@ def run_one(pid, name, edits, tier="quick"):
             rp, tail = viol[0]
             if "no-failing-input-found" in tail:
                 line += "; replay=no-failing-input-found"
-            rm = sh(f"./check {pid} --replay {rp}", cwd=V)
+            rm = sh(f"./check {pid.split(chr(45))[0]} --replay {rp}", cwd=V)
             line += f"; replay-on-mutant exit {rm.returncode}"
             sh(f"git -C {REPO} checkout -- .")
-            rc = sh(f"./check {pid} --replay {rp}", cwd=V)
+            rc = sh(f"./check {pid.split(chr(45))[0]} --replay {rp}", cwd=V)
             line += f"; replay-on-clean exit {rc.returncode}"
         return line
     finally:
